@@ -912,3 +912,89 @@ pub fn n_m2o<'a>(receiver: &Process<'a, NReceiver>, a: Stream<u32, Cluster<'a, N
         .assume_ordering::<TotalOrder>(nondet!(/** observation only */))
         .embedded_output("out");
 }
+
+// ------------------------------------------------------------------ round 8 (C33): map / map_with_key with a
+// closure that is NOT order preserving, over keyed singletons of each bound.  The type (and the
+// recorded collection_kind) must erase the monotone-value promise (B::EraseMonotonic).
+
+fn snap_entries<'a, K: Clone, V: Clone, B: hydro_lang::live_collections::keyed_singleton::KeyedSingletonBound<ValueBound = Unbounded>>(
+    ks: KeyedSingleton<K, V, P<'a>, B>,
+    tick: &Tick<P<'a>>,
+) -> Stream<(K, V), P<'a>, Unbounded, NoOrder> {
+    ks.snapshot(tick, nondet!(/** observation only */))
+        .entries()
+        .all_ticks()
+}
+
+pub fn m_vc_map<'a>(a: S<'a, KV>) {
+    let tick = a.location().tick();
+    let ks = a
+        .into_keyed()
+        .value_counts()
+        .map(q!(|c| 100 - 10 * ((c % 10) as u32)));
+    snap_entries(ks, &tick)
+        .assume_ordering::<TotalOrder>(nondet!(/** observation only */))
+        .embedded_output("out");
+}
+
+pub fn m_vc_map_with_key<'a>(a: S<'a, KV>) {
+    let tick = a.location().tick();
+    let ks = a
+        .into_keyed()
+        .value_counts()
+        .map_with_key(q!(|(k, c)| k + 100 - 10 * ((c % 10) as u32)));
+    snap_entries(ks, &tick)
+        .assume_ordering::<TotalOrder>(nondet!(/** observation only */))
+        .embedded_output("out");
+}
+
+pub fn m_fold_mono_map_with_key<'a>(a: S<'a, KV>) {
+    let tick = a.location().tick();
+    let ks = a
+        .into_keyed()
+        .fold(
+            q!(|| 0u32),
+            q!(
+                |acc, v| *acc += v,
+                monotone = manual_proof!(/** adding an unsigned value */)
+            ),
+        )
+        .map_with_key(q!(|(k, s)| k + 100 - 10 * (s % 10)));
+    snap_entries(ks, &tick)
+        .assume_ordering::<TotalOrder>(nondet!(/** observation only */))
+        .embedded_output("out");
+}
+
+pub fn m_fold_mono<'a>(a: S<'a, KV>) {
+    let tick = a.location().tick();
+    let ks = a.into_keyed().fold(
+        q!(|| 0u32),
+        q!(
+            |acc, v| *acc += v,
+            monotone = manual_proof!(/** adding an unsigned value */)
+        ),
+    );
+    snap_entries(ks, &tick)
+        .assume_ordering::<TotalOrder>(nondet!(/** observation only */))
+        .embedded_output("out");
+}
+
+pub fn m_mk_map_with_key<'a>(a: S<'a, KV>) {
+    let tick = a.location().tick();
+    let ks = a
+        .into_keyed()
+        .fold(q!(|| 1u32), q!(|acc, v| *acc = (*acc * 2 + v) % 1009))
+        .map_with_key(q!(|(k, s)| k + 100 - 10 * (s % 10)));
+    snap_entries(ks, &tick)
+        .assume_ordering::<TotalOrder>(nondet!(/** observation only */))
+        .embedded_output("out");
+}
+
+pub fn m_count_map<'a>(a: S<'a, u32>) {
+    let tick = a.location().tick();
+    a.count()
+        .map(q!(|c| 100 - 10 * ((c % 10) as u32)))
+        .snapshot(&tick, nondet!(/** observation only */))
+        .all_ticks()
+        .embedded_output("out");
+}
